@@ -150,6 +150,10 @@ fn build(c: &Case) -> (Vec<u8>, Vec<ExpRadial>, Option<u16>) {
     (volume(&VolHeader::basic(), &records), exp, first_vcp)
 }
 
+pub fn volume_bytes(c: &Case) -> Vec<u8> {
+    build(c).0
+}
+
 fn radial_moment(r: &Radial, k: usize) -> Option<&MomentData> {
     match k {
         3 => r.reflectivity(),
